@@ -80,6 +80,14 @@ def run(ctx):
                                                 "line": f["line"]})
     if not fails:
         selftest(ctx, events)
+    # extension: the extensible payload pool in front of the consensus service (spec/extpool, harness/c19extpool)
+    ep = os.path.join(os.path.dirname(os.path.abspath(__file__)), "c19_extpool.py")
+    if os.path.exists(ep):
+        import importlib.util
+        sp = importlib.util.spec_from_file_location("check_c19_extpool", ep)
+        m = importlib.util.module_from_spec(sp)
+        sp.loader.exec_module(m)
+        m.run_ext(ctx)
     ctx.assumptions.append("silent = late: a silent validator neither receives payloads nor has its timer fired while silent; payloads it sent earlier stay deliverable")
     ctx.assumptions.append("synchrony = every sent payload is delivered to everybody, lagging nodes get peers' blocks through their block queue, and the armed timer with the earliest virtual deadline fires when nothing else can happen; Progress bound = 6*N such rounds per block")
     ctx.assumptions.append("wall-clock is used only to detect a dead driver (exit 2), never for a verdict")
